@@ -20,10 +20,11 @@ func NewModel(opts ...resource.Option) *Model {
 	value := resource.NewValue(append(defaultOptions, opts...)...)
 	// make sure start and end time are recorded
 	_, _ = value.Set(&traits.MeterReading{}, resource.InterceptBefore(func(old, new proto.Message) {
-		oldVal := old.(*traits.MeterReading)
 		newVal := new.(*traits.MeterReading)
+		// keep whatever reading the model was configured with, this write replaces the whole value
+		proto.Merge(newVal, old)
 		now := value.Clock().Now()
-		if oldVal.StartTime == nil {
+		if newVal.StartTime == nil {
 			newVal.StartTime = timestamppb.New(now)
 		}
 		if newVal.EndTime == nil {
